@@ -23,6 +23,7 @@ RULE = (
 ASSUMPTIONS = [
     "the in-memory API result (itself judged by C01-C10) is the reference side of the differential; vf/ref/ips.py reads the patches",
     "the copier header applies to IPS output only (the SFC writer has no such shift in the property)",
+    "a third of the front-end runs find a file of an earlier, larger build at the output path; some command-line runs add --verbose / --dump-symbols (diagnostic switches)",
     "the working directory is the same for both sides; a third of the front-end runs name the source as proj/src/t.s with a decoy of every "
     "referenced file next to it (quoted paths are resolved as for the in-memory API, which has no source directory)",
     "a quarter of the front-end runs read the source and its included files saved with CR LF line ends (what an editor on Windows writes): the same "
@@ -146,6 +147,10 @@ def check_point(res: Res, p: dict, fmt: str, mapping: str, copier: bool, defs: l
     import vf.frontends as fe
 
     fe.DUMP_SYMBOLS["on"] = front != "api" and (len(src) + len(defs)) % 3 == 0
+    fe.VERBOSE["on"] = front != "api" and (len(src) + len(front)) % 5 == 0
+    fe.STALE_OUTPUT["on"] = (len(src) + 2 * len(front)) % 3 == 0
+    if fe.STALE_OUTPUT["on"]:
+        res.count("runs_over_an_existing_output_file")
     if fe.DUMP_SYMBOLS["on"]:
         res.count("cli_runs_with_dump_symbols")
     if front == "api":
@@ -154,7 +159,7 @@ def check_point(res: Res, p: dict, fmt: str, mapping: str, copier: bool, defs: l
         fr = cli_inprocess(fmt, src, files, mapping, copier, defs, layout=layout)
     else:
         fr = cli_subprocess(fmt, src, files, mapping, copier, defs, layout=layout)
-    fe.DUMP_SYMBOLS["on"] = False
+    fe.DUMP_SYMBOLS["on"] = fe.VERBOSE["on"] = fe.STALE_OUTPUT["on"] = False
     res.count(f"front[{front}]")
     mech_hint = None
     if defs and front != "api":
